@@ -19,9 +19,14 @@ trap 'git -C /repo worktree remove --force "$wt" >/dev/null 2>&1; rm -rf "$VERIF
 git -C "$wt" apply "$dir/patch.diff" || { echo "$id: patch does not apply"; exit 2; }
 export VERIF_REPO=$wt VERIF_WORK=$VERIF/.work/seedrun-$id-$$ VERIF_OUT_DIR=$VERIF/.work/seedrun-$id-$$/out
 mkdir -p "$VERIF_OUT_DIR"
+# run from a snapshot of the harness so that edits made to /verif meanwhile do not disturb this run
+snap=$VERIF_WORK/snap
+mkdir -p "$snap"
+cp -r "$VERIF/check" "$VERIF/tools" "$VERIF/engine" "$VERIF/py" "$VERIF/known_findings.json" "$snap/"
+cd "$snap"
 for chk in "${checks[@]}"; do
   s=$(date +%s)
-  out=$(VMC_NO_CONFIRM=1 ${VERIF_WORKERS:+VERIF_WORKERS=$VERIF_WORKERS} ./check "$chk" "$tier" 2>&1)
+  out=$(VMC_NO_CONFIRM=1 ./check "$chk" "$tier" 2>&1)
   rc=$?
   n=$(echo "$out" | grep -c '^VIOLATION')
   first=$(echo "$out" | grep -A1 '^VIOLATION' | grep oracle | head -1 | cut -c1-260)
